@@ -11,6 +11,10 @@ Record oracles := {
   o_sel6 : option ipraw;
   o_rand4 : bool;               (* SupportRandomPort() of that selection *)
   o_rand6 : bool;
+  o_real : bool;                (* the case runs the shipped selector and the real min / prefix transports: *)
+  o_pok : bool;                 (*   Transport.ParseParams accepted the effective parameters *)
+  o_port4 : option N;           (*   getPhantomDstPort for the two selections *)
+  o_port6 : option N;
   o_geo : bool;
   o_covert : option bytes;      (* ParseOrResolveBlocklisted(covert) *)
   o_live : bool                 (* verdict the injected tester gives *)
@@ -83,8 +87,9 @@ Definition instantiate {T} (o : oracles)
        (bytes -> N -> N -> option N -> bool -> option N) -> (ipraw -> bool) ->
        (bytes -> option bytes) -> (ipraw -> N -> bool) -> T) : T :=
   k (fun _ _ _ v6 => if v6 then o_sel6 o else o_sel4 o)
-    (fun _ _ prm => drv_params_ok prm)
-    (fun _ _ libver prm v6 => drv_dst_port libver prm (if v6 then o_rand6 o else o_rand4 o))
+    (fun _ _ prm => if o_real o then o_pok o else drv_params_ok prm)
+    (fun _ _ libver prm v6 => if o_real o then (if v6 then o_port6 o else o_port4 o)
+                              else drv_dst_port libver prm (if v6 then o_rand6 o else o_rand4 o))
     (fun _ => o_geo o)
     (fun _ => o_covert o)
     (fun _ _ => o_live o).
